@@ -41,4 +41,7 @@ package main
 //@   requires cfg != nil && 0 <= cfg.Server.Timeouts.Read && cfg.Server.Timeouts.Read < 8589934592 && 0 <= cfg.Server.Timeouts.Write && cfg.Server.Timeouts.Write < 8589934592
 //@   requires 0 <= cfg.Server.Timeouts.Idle && cfg.Server.Timeouts.Idle < 8589934592
 //@   ensures timeouts_positive: result != nil && result.ReadTimeout > 0 && result.WriteTimeout > 0 && result.IdleTimeout > 0
+// server.timeouts.handler is documented as the end-to-end bound of a request ("ensures requests don't hang
+// indefinitely"): when configured, the handler the server runs must enforce it.
+//@   ensures the_configured_handler_timeout_bounds_requests@C03: cfg.Server.Timeouts.Handler > 0 ==> handlerBound(ptr(result.Handler)) == cfg.Server.Timeouts.Handler * 1000000000
 //@   ensures configured_values_used: cfg.Server.Timeouts.Read > 0 ==> result.ReadTimeout == cfg.Server.Timeouts.Read * 1000000000
